@@ -2,7 +2,7 @@
 alphabet (SluApi), the harness executes them on the real library (drv_api), TLC validates the
 observed records (SluApiTrace) and the embedded factorization events (SluPipeTrace)."""
 import os, json, random
-import common, api, tlc, pipe
+import common, api, tlc, pipe, solve
 
 # which properties a failed obligation clause speaks about (used to attribute a rejection)
 CLAUSE_PROPS = {
@@ -83,6 +83,9 @@ def atoms(h):
 
 # checks whose property covers the caller's workspace: their histories also validate the Stk* events against SluStack
 STACK_PROPS = {"C14", "C18", "C08"}
+# checks whose property covers a solve: every ?gstrs / sp_?trsv call of their histories is validated against SluSolve (which kernel on which
+# block of L and which part of B, in which order)
+SOLVE_PROPS = {"C01", "C07", "C08", "C12", "C13"}
 RHS_SHAPES = ("one", "multi", "multi_pad", "zero")
 
 
@@ -178,8 +181,14 @@ def run_histories(ck, alphabet, depth, count, rng, precs=("d",), threads=(1, 2, 
         sr = None
         if st == "exit:0" and ck.pid in STACK_PROPS:
             sr, _ = api.validate_stack(wd, "h%d" % i, op)
+        if st == "exit:0" and ck.pid in SOLVE_PROPS:
+            svrecs.append((i, solve.solve_records(op, cplx=prec in "cz", tag=i)))
         return i, h, prec, txt, st, v, err, pv, sr
-    for i, h, prec, txt, st, v, err, pv, sr in common.pmap(one, items):
+    svrecs = []
+    results = list(common.pmap(one, items))
+    if svrecs:
+        judge_solves(ck, wd, svrecs, {a[0]: a for a in items})
+    for i, h, prec, txt, st, v, err, pv, sr in results:
         key = "hist:%s:%s" % (prec, json.dumps(h, sort_keys=True))
         if sr is not None and not tlc.inconclusive(sr):
             ck.model(sr.get("distinct", 0), sr.get("generated", 0))
@@ -228,6 +237,42 @@ def run_histories(ck, alphabet, depth, count, rng, precs=("d",), threads=(1, 2, 
             else:
                 ck.violation(key + ":pipe", "factorization inside the history rejected by SluPipeTrace: " + pipe.explain(pr, f),
                              {"script": txt, "trace": f})
+
+
+def judge_solves(ck, wd, svrecs, items):
+    """every recorded ?gstrs / sp_?trsv call of the executed histories against SluSolve!SolveOK (TLC, chunks in parallel)"""
+    allr = [r for _, rs in sorted(svrecs, key=lambda x: x[0]) for r in rs]
+    use = [r for r in allr if not solve.skip(r) and len(r["sn"]) <= 200]
+    ck.notes["solve_calls_recorded"] = ck.notes.get("solve_calls_recorded", 0) + len(allr)
+    ck.notes["solve_calls_skipped_complex_conjugate_known_finding_F16"] = ck.notes.get("solve_calls_skipped_complex_conjugate_known_finding_F16", 0) + sum(1 for r in allr if solve.skip(r))
+    if not use:
+        return
+    nch = min(common.NCPU, max(1, len(use) // 400))
+    chunks = [use[k::nch] for k in range(nch)]
+
+    def one(a):
+        k, ch = a
+        bad, states, errors, _ = solve.validate(wd, "sv%d" % k, ch)
+        if errors:                                  # the tool did not decide (load): once more, longer limit
+            bad, states, errors, _ = solve.validate(wd, "sv%dt" % k, ch, timeout=1200)
+        return ch, bad, states, errors
+    nbad = 0
+    for ch, bad, states, errors in common.pmap(one, list(enumerate(chunks))):
+        ck.model(states, states)
+        if errors:
+            ck.notes["solve_records_not_decided_by_TLC"] = ck.notes.get("solve_records_not_decided_by_TLC", 0) + len(ch)
+            continue
+        ck.notes["solve_calls_validated"] = ck.notes.get("solve_calls_validated", 0) + len(ch) - len(bad)
+        for b in bad:
+            r = ch[b]
+            nbad += 1
+            if nbad > 12:
+                continue
+            it = items.get(r.get("tag"))
+            ck.violation("solve:%s:%d:%d:%d" % ("gstrs" if r["kind"] == 0 else "trsv", r["op"], r["uplo"], r.get("tag", -1)),
+                         "precision %s: a real %s call is not the sweep of SluSolve (kernel, dimensions, block of L or part of the right-hand sides differ): %s" % (
+                             it[2] if it else "?", "?gstrs" if r["kind"] == 0 else "sp_?trsv", json.dumps(r)[:900]),
+                         {"script": it[3] if it else "", "precision": it[2] if it else "", "record": r})
 
 
 SESSION_ALPHABET = ["mat", "onemat", "vals", "ses", "destroy", "trans", "user", "scon"]
